@@ -247,11 +247,39 @@ def explore_full(ctx, cfg, sc_dir, idx, budget, n_cli):
     return T, sc, G, E, cands, rows, vio, rows2, run
 
 
-def explore(ctx, cfg, sc_dir, idx, budget):
+def pretrain(previous, d):
+    """The earlier trainings of a ruleset name that is trained more than once: the real trainer onto the same directory,
+    a guesser / scorer session after each."""
+    for c in previous or []:
+        try:
+            T0 = ol.Trained(c, d)
+        except ZeroDivisionError:
+            continue
+        if T0.usable:
+            ol.session_on(T0)
+
+
+def mark_retrained(vio, previous):
+    """Violations found on a ruleset name that was trained before get a signature of their own."""
+    if not previous:
+        return vio
+    for v in vio:
+        if not v["sig"].startswith("C11:retrained:"):
+            v["sig"] = v["sig"].replace("C11:", "C11:retrained:", 1)
+            v["what"] = "ruleset name trained %d times (before: %s), the last result: %s" % (
+                len(previous) + 1, "; ".join("-n %d -a %d -e %s, %d passwords" % (c["ngram"], c["alphabet_size"], c["encoding"],
+                                                                                  len(c["passwords"])) for c in previous), v["what"])
+    return vio
+
+
+def explore(ctx, cfg, sc_dir, idx, budget, previous=None):
+    pretrain(previous, os.path.join(sc_dir, "m%d" % idx))
     T = ol.Trained(cfg, os.path.join(sc_dir, "m%d" % idx))
     if not T.usable:
         return None
     replay_base = {"training": cfg}
+    if previous:
+        replay_base["previous"] = list(previous)
     sc, sc_err = T.load_scorer()
     G, g_err = T.load_guesser()
     E = {}
@@ -271,7 +299,7 @@ def explore(ctx, cfg, sc_dir, idx, budget):
     if G is not None and errs:
         vio.append({"sig": "C11:guesser-raises", "what": "MarkovCracker raises at target level %d on the ruleset the trainer "
                     "wrote: %s" % errs[0], "replay": dict(replay_base, string=None)})
-    return T, sc, G, E, cands, rows, vio
+    return T, sc, G, E, cands, rows, mark_retrained(vio, previous)
 
 
 def decoded_ok(T, consts):
@@ -400,14 +428,24 @@ def run(ctx):
     seen, nontrivial = set(), 0
     missing_consts = set()
     kinds = list(ol.KINDS)
-    for i in range(n):
-        if i in (1, 9) or (i > 30 and i % 40 == 0):
-            kind = "extreme"        # CP / LN smoothed to the cap level 10 although seen; IP levels 5..6 and 10
+    # after the n fresh directories: ruleset names WITH A HISTORY (trained two or three times: another n-gram size, alphabet
+    # size, encoding, list, ...; a guesser / scorer session in between); the ruleset under test is the LAST training
+    n_hist = ctx.scale(9, 150)
+    dist["histories"] = 0
+    dist["history_variants"] = {}
+    for i in range(n + n_hist):
+        previous = None
+        if i >= n:
+            h = ol.gen_retraining(ctx.rng, None, variant="ngram" if i % 3 == 0 else None)
+            cfg, previous = h["steps"][-1], h["steps"][:-1]
         else:
-            kind = kinds[i % len(kinds)] if i < 2 * len(kinds) else None
-        cfg = ol.gen_training(ctx.rng, kind)
+            if i in (1, 9) or (i > 30 and i % 40 == 0):
+                kind = "extreme"        # CP / LN smoothed to the cap level 10 although seen; IP levels 5..6 and 10
+            else:
+                kind = kinds[i % len(kinds)] if i < 2 * len(kinds) else None
+            cfg = ol.gen_training(ctx.rng, kind)
         try:
-            r = explore(ctx, cfg, sc_dir, i, budget)
+            r = explore(ctx, cfg, sc_dir, i, budget, previous)
         except ZeroDivisionError:
             r = None
         if r is None:
@@ -416,6 +454,10 @@ def run(ctx):
         T, sc, G, E, cands, rows, v = r
         vio += v
         dist["models"] += 1
+        if previous:
+            dist["histories"] += 1
+            for var in h["variants"]:
+                dist["history_variants"][var] = dist["history_variants"].get(var, 0) + 1
         g = T.trainer.grammar
         cap_cps = {k + c for k, d in g.items() for c, lv in d["next_letter"].items() if lv[0] >= 10 and lv[1] > 0}
         dist["seen_cp_at_cap_level"] += len(cap_cps)
@@ -616,17 +658,29 @@ def run(ctx):
             "the trainer's level, the MarkovCracker's level and the model, and up to 40 of them go through password_scorer.py "
             "itself (-o file / stdout alternating), whose level column is compared with the trainer's level; non-trivial = the "
             "string has a level or is rejected for a reason other than its length; distinct by (tables, string, which scorer "
-            "entry point)")
+            "entry point).  After the fresh directories: "
+            "ruleset names WITH A HISTORY - the real trainer run two or three times onto one directory (another n-gram size: 4 then 5, "
+            "3 then 4, ...; another alphabet size, encoding, list; the same again), the real guesser and scorer loaders run on it in "
+            "between - and the same three-way comparison, counts oracle and Coq cases on the LAST result")
     if vio:
         vio = shrink_all(ctx, vio)
     return {"evaluations": dist["strings"], "distinct_nontrivial": nontrivial, "rule": rule, "samples": samples,
             "corr": corr, "violations": vio, "dist": dist}
 
 
-def check_one(rng, cfg, string, budget, cli=None):
-    """The three-way oracle on one training configuration (and one string, or generated candidates)."""
+def check_one(rng, cfg, string, budget, cli=None, previous=None):
+    """The three-way oracle on one training configuration (and one string, or generated candidates); previous: the
+    trainings the same directory received before."""
+    return mark_retrained(check_one_(rng, cfg, string, budget, cli, previous), previous)
+
+
+def check_one_(rng, cfg, string, budget, cli, previous):
     sc_dir = common.scratch()
     is_full = cfg.get("stage") == "full"
+    pretrain(previous, os.path.join(sc_dir, "r"))
+    base = {"training": cfg}
+    if previous:
+        base["previous"] = list(previous)
     try:
         T = of.FullTrained(cfg, os.path.join(sc_dir, "r")) if is_full else ol.Trained(cfg, os.path.join(sc_dir, "r"))
     except ZeroDivisionError:
@@ -648,21 +702,21 @@ def check_one(rng, cfg, string, budget, cli=None):
             E.pop(L)
         if errs:
             vio.append({"sig": "C11:guesser-raises", "what": "MarkovCracker raises at target level %d: %s" % errs[0],
-                        "replay": {"training": cfg, "string": None}})
+                        "replay": dict(base, string=None)})
     cands = [(string, "replay")] if string is not None else (of.candidates if is_full else ol.candidates)(rng, T, E)
-    v, _ = three_way(T, sc, sc_err, G, g_err, E, cands, {"training": cfg})
+    v, _ = three_way(T, sc, sc_err, G, g_err, E, cands, base)
     vio += v
-    vio += counts_oracle(T, G, E, {"training": cfg})
+    vio += counts_oracle(T, G, E, base)
     if is_full:
         P, p_err = of.build_pcfg_scorer(T.base_dir, cfg.get("limit", 0), cfg.get("max_omen", 9))
-        v, rows2 = reported_oracle(T, P, p_err, E, cands, {"training": cfg})
+        v, rows2 = reported_oracle(T, P, p_err, E, cands, base)
         vio += v
         if cli and P is not None:
             strings = [x for x in cli if of.cli_safe(x, cfg["encoding"])] if isinstance(cli, list) else \
                 cli_strings(rng, cands, rows2, cfg["encoding"], 40)
             for to_file in (True, False):
                 if strings:
-                    v, _ = cli_oracle(T, of.start_cli(T, "R%d" % os.getpid(), strings, to_file), {"training": cfg})
+                    v, _ = cli_oracle(T, of.start_cli(T, "R%d" % os.getpid(), strings, to_file), base)
                     vio += v
     return vio
 
@@ -680,13 +734,14 @@ def shrink_all(ctx, vio, seconds_each=2.0, max_sigs=4):
     front = []
     for sig, v in list(by.items())[:max_sigs]:
         s = v["replay"].get("string")
+        prev = v["replay"].get("previous")
 
         cli = v["replay"].get("cli") if "scorer-cli" in sig else None
 
-        def still(c, sig=sig, s=s, cli=cli):
-            return any(x["sig"] == sig for x in check_one(ctx.rng, c, s, small, cli))
+        def still(c, sig=sig, s=s, cli=cli, prev=prev):
+            return any(x["sig"] == sig for x in check_one(ctx.rng, c, s, small, cli, prev))
         cfg2 = ol.shrink_training(v["replay"]["training"], still, seconds_each * (2 if cli else 1))
-        hits = [x for x in check_one(ctx.rng, cfg2, s, small, cli) if x["sig"] == sig]
+        hits = [x for x in check_one(ctx.rng, cfg2, s, small, cli, prev) if x["sig"] == sig]
         front.append(hits[0] if hits else v)
     return front + vio
 
@@ -696,4 +751,4 @@ def replay(ctx, data):
     if "training" not in inp:
         return []
     return check_one(ctx.rng, inp["training"], inp.get("string"), {"cap": 50000, "per_level": 5.0, "per_model": 30.0},
-                     cli=inp.get("cli") or True)
+                     cli=inp.get("cli") or True, previous=inp.get("previous"))
